@@ -656,6 +656,14 @@ pub(crate) async fn fashare(
             if claimed_bit > 1 {
                 return Err(Error::InvalidBitValue);
             }
+            // The bit decides whether we open d0 or d0 ^ delta, so it has to be authenticated
+            // with our own key first: the peer sends its MAC under our key at our position.
+            let pos = if i > k { i - 1 } else { i };
+            let (_, key) = xishares[l + r].1.0[k];
+            let expected_mac = key.0 ^ if claimed_bit != 0 { delta.0 } else { 0 };
+            if dm_mac(&dm_k[k][r], pos) != Some(expected_mac) {
+                return Err(Error::AShareWrongMAC);
+            }
             bi[r] ^= claimed_bit != 0;
         }
         di_bi[r] = if bi[r] { d1[r] } else { d0[r] };
